@@ -586,6 +586,14 @@ func (m *Machine) execStmt(s ast.Stmt) {
 		}
 	case *ast.AssignStmt:
 		if len(x.Lhs) == len(x.Rhs) {
+			// `dst[i] = append(dst[i], v)`: an effect call on the right-hand side of a store is the effect
+			if m.Effect != nil && !m.disc {
+				for _, r := range x.Rhs {
+					if call, ok := ast.Unparen(r).(*ast.CallExpr); ok && m.Effect(call) {
+						panic(returned{Sym("effect")})
+					}
+				}
+			}
 			vals := make([]Value, len(x.Rhs))
 			for i, r := range x.Rhs {
 				vals[i] = m.Eval(r)
